@@ -347,6 +347,10 @@ class _Num(_Sym):
 
 
 class SymInt(_Num):
+    def __hash__(self):
+        # dict / set look-ups concretise the value (case split through the explorer)
+        return hash(self.__index__())
+
     def __index__(self):
         if CUR is None:
             raise Unsupported("int() of a symbolic integer outside an explorer")
